@@ -10,26 +10,38 @@
 (*   {"e":"rerun","same":0|1}  two one-thread runs of the same             *)
 (*        photoionization problem with the same seed wrote byte-identical  *)
 (*        snapshots (1) or not (0)                                         *)
+(*   {"e":"seeds","differ":0|1}  two runs that differ only in the seed     *)
+(*        wrote different snapshots                                        *)
+(*   {"e":"batches","n":n,"distinct":d}  of the n batches of packets drawn *)
+(*        by the discrete source of one run (all iterations), d had        *)
+(*        pairwise different fingerprints of the random numbers used: a    *)
+(*        generator that advances never replays a batch                    *)
 (***************************************************************************)
 EXTENDS Ranlux, Json, IOUtils
 
 TraceLog == ndJsonDeserialize(IOEnv.TRACE)
-VARIABLES l, rerun
-vars == <<ring, carry, pos, out, saved, l, rerun>>
+VARIABLES l, rerun, flags
+vars == <<ring, carry, pos, out, saved, l, rerun, flags>>
 Rec == TraceLog[l]
 IsEvent(e) == l <= Len(TraceLog) /\ Rec.e = e /\ l' = l + 1
 
-Init == /\ ring = SeedRing(42) /\ carry = 0 /\ pos = 12 /\ out = <<-1, -1>> /\ saved = <<>> /\ l = 1 /\ rerun = 1
-TSeed == IsEvent("seed") /\ Seed(Rec.s) /\ UNCHANGED rerun
-TDraw == IsEvent("draw") /\ Draw /\ out' = <<Rec.hi, Rec.lo>> /\ UNCHANGED rerun
-TSave == IsEvent("save") /\ Save /\ UNCHANGED rerun
-TRestore == IsEvent("restore") /\ Restore /\ UNCHANGED rerun
-TRerun == IsEvent("rerun") /\ rerun' = Rec.same /\ UNCHANGED gvars
-Next == TSeed \/ TDraw \/ TSave \/ TRestore \/ TRerun
+Init == /\ ring = SeedRing(42) /\ carry = 0 /\ pos = 12 /\ out = <<-1, -1>> /\ saved = <<>> /\ l = 1 /\ rerun = 1 /\ flags = {}
+TSeed == IsEvent("seed") /\ Seed(Rec.s) /\ UNCHANGED <<rerun, flags>>
+TDraw == IsEvent("draw") /\ Draw /\ out' = <<Rec.hi, Rec.lo>> /\ UNCHANGED <<rerun, flags>>
+TSave == IsEvent("save") /\ Save /\ UNCHANGED <<rerun, flags>>
+TRestore == IsEvent("restore") /\ Restore /\ UNCHANGED <<rerun, flags>>
+TRerun == IsEvent("rerun") /\ rerun' = Rec.same /\ UNCHANGED <<gvars, flags>>
+TSeeds == IsEvent("seeds") /\ flags' = flags \cup (IF Rec.differ = 1 THEN {} ELSE {"seedignored"}) /\ UNCHANGED <<gvars, rerun>>
+TBatches == IsEvent("batches") /\ flags' = flags \cup (IF Rec.distinct = Rec.n THEN {} ELSE {"replayed"}) /\ UNCHANGED <<gvars, rerun>>
+Next == TSeed \/ TDraw \/ TSave \/ TRestore \/ TRerun \/ TSeeds \/ TBatches
 Spec == Init /\ [][Next]_vars
 
 \* same seed, same input, one thread: identical output
 RunDeterministic == rerun = 1
+\* different seeds give different streams (seen through the run: the seed matters)
+SeedMatters == "seedignored" \notin flags
+\* the stream a run consumes advances: no batch of packets is drawn from the same random numbers as another one
+StreamAdvances == "replayed" \notin flags
 
 ASSUME TLCSet(1, 0)
 TrackL == TLCSet(1, IF l > TLCGet(1) THEN l ELSE TLCGet(1))
